@@ -242,7 +242,7 @@ ExploreStats explore(const std::function< void(const std::vector< int > &) > &ch
   bool cut = false;
   for (;;) {
     if (work.empty() && running.empty()) {
-      st.bound_completed = opt.unbounded ? 1 << 20 : bound;
+      st.bound_completed = opt.unbounded ? (cut ? 0 : 1 << 20) : (cut && !st.complete ? bound - 1 : bound);
       if (bound >= last_bound || next_work.empty())
         break;
       ++bound;
